@@ -48,17 +48,13 @@ Lemma rem1_head x H : rem1 x (x :: H) = H.
 Proof. cbn [rem1]. destruct (hold_eqb_spec x x); [reflexivity|contradiction]. Qed.
 
 Section A.
-Variables (nl : nat) (rk : lock -> nat).
-Notation wp := (wp nl rk).
-Notation rank_ok := (rank_ok nl rk).
+Variable bl : list hold -> lock -> Prop.
+Notation wp := (wp bl).
 Implicit Types (Qr : val -> post) (Qt QF : post) (H : list hold) (K : bool).
-
-Lemma rank_ok_perm H H' l : Permutation H H' -> rank_ok H l -> rank_ok H' l.
-Proof. intros P [A B]. split; [exact A|]. intros x Hx. apply B. eapply Permutation_in; [symmetry; exact P|exact Hx]. Qed.
 
 (* every lock of ls, acquired in this order on top of H, is above everything held when it is requested *)
 Fixpoint asc (m : mode) (H : list hold) (ls : list lk) : Prop :=
-  match ls with [] => True | x :: r => rank_ok H (snd x) /\ asc m (hold_of m x :: H) r end.
+  match ls with [] => True | x :: r => bl H (snd x) /\ asc m (hold_of m x :: H) r end.
 
 Lemma asc_app m a : forall H b, asc m H (a ++ b) <-> asc m H a /\ asc m (rev (holds_of m a) ++ H) b.
 Proof.
@@ -69,7 +65,7 @@ Qed.
 
 (* ---------------------------------------------------------------- single locks *)
 Lemma wp_leaf_lock m k l H K Qr Qt QF :
-  rank_ok H l -> Qr VUnit (hold_of m (k, l) :: H) K -> wp (leaf_lock m k l) H K Qr Qt QF.
+  bl H l -> Qr VUnit (hold_of m (k, l) :: H) K -> wp (leaf_lock m k l) H K Qr Qt QF.
 Proof.
   intros R Q. unfold leaf_lock, hold_of in *. cbn [fst snd] in *. rewrite <- hx_acq in Q.
   cbn [Wp.wp vtrue op_]. destruct k, m; cbn [acq_op rop_ex] in *; split; assumption.
@@ -335,7 +331,7 @@ Definition alg_leaves (a : alg) : list lk := rsleaves (alg_refs a).
 
 Definition alg_ok (m : mode) (a : alg) : Prop :=
   match a with
-  | AlgLeaf k l => rank_ok [] l
+  | AlgLeaf k l => bl [] l
   | AlgOrdered rs => asc m [] (rsleaves rs)
   | AlgRetry rs => Forall (fun r => asc m [] (rleaves r)) rs
   | AlgNone => True
